@@ -6,14 +6,14 @@ identity per agent; `old + next` for every object reconstructed by a copy).
 
   scenario occ                          reset
   space <k> <cap|-> <spec> <i>j …>      a space of k cells; i>j: cell number i is connected to cell number j (in dict order);
-                                        <spec> tells the harness which mesa space to build, the model ignores it  → ok <s>
+                                        <spec> tells the harness which mesa space to build; the model only reads whether it
+                                        is a network (`net:…`: plain cells) or a grid (one cell class per grid)        → ok <s>
   agent <s>                             CellAgent(model of s)                      → ok <a> <unique_id> | err NoSpace
   set <a> <c>                           a.cell = c      → ok | err NoAgent | err NoCell | err Foreign | err Full
   unset <a> | remove <a>                a.cell = None | a.remove()                  → ok | err NoAgent
   copy <s> deepcopy|pickle              the copy is space <s + next>                → ok <s'> fresh | err NoSpace
-  look <s>                              c:idx:cap:listed agents:connection targets … | a:unique_id:cell … | empty cells … | g
-                                        g: the generator objects used by the space, its model and its cells — in the model the
-                                        generator is part of the record of the pair space/model, so this is always <s>
+  look <s>                              c:idx:cap:listed agents:connection targets:generator:class … | a:unique_id:cell … | empty cells …
+                                        generator / class: the pair whose generator / cell class the cell uses (class `-`: plain Cell)
 -/
 open Mesa.CopyOcc
 
@@ -36,10 +36,12 @@ def showCap : Option Nat → String
   | some k => toString k
   | none => "-"
 
-def showLook (s : Nat) (v : List (Nat × Nat × Option Nat × List Nat × List Nat) × List (Nat × Nat × Option Nat)) (e : List Nat) : String :=
-  "ok " ++ " ".intercalate (v.1.map fun (c, i, cap, ags, conn) => s!"{c}:{i}:{showCap cap}:{dots ags}:{dots conn}")
+def showLook (v : List (Nat × Nat × Option Nat × List Nat × List Nat × Nat × Option Nat) × List (Nat × Nat × Option Nat))
+    (e : List Nat) : String :=
+  "ok " ++ " ".intercalate (v.1.map fun (c, i, cap, ags, conn, rnd, kl) =>
+      s!"{c}:{i}:{showCap cap}:{dots ags}:{dots conn}:{rnd}:{showCap kl}")
     ++ " | " ++ " ".intercalate (v.2.map fun (a, u, c) => s!"{a}:{u}:{showCap c}")
-    ++ " | " ++ " ".intercalate (e.map toString) ++ s!" | {s}"
+    ++ " | " ++ " ".intercalate (e.map toString)
 
 def showRes : Res → String
   | .ok => "ok"
@@ -51,11 +53,11 @@ def showRes : Res → String
 def opLine (w : World) (ws : List String) : World × String :=
   match ws with
   | ["scenario", "occ"] => (init, "ok")
-  | "space" :: k :: cap :: _spec :: rest =>
+  | "space" :: k :: cap :: spec :: rest =>
     match k.toNat?, capOf cap, rest.mapM pairOf with
     | some k, some cap, some pairs =>
       if pairs.all fun p => p.1 < k && p.2 < k then
-        let (w', s) := newSpace w k cap pairs
+        let (w', s) := newSpace w k cap (!spec.startsWith "net") pairs
         (w', s!"ok {s}")
       else (w, "bad-op")
     | _, _, _ => (w, "bad-op")
@@ -85,7 +87,7 @@ def opLine (w : World) (ws : List String) : World × String :=
     match s.toNat? with
     | some s =>
       (match view w s, empties w s with
-       | some v, some e => (w, showLook s v e)
+       | some v, some e => (w, showLook v e)
        | _, _ => (w, "err NoSpace"))
     | none => (w, "bad-op")
   | _ => (w, "bad-op")
